@@ -4,13 +4,13 @@
 import TvFs.Model.Fs
 import TvFs.Model.Spec
 import TvFs.Model.Patterns
+import TvFs.Model.Fragment
+import TvFs.Proofs.Partial
 
 namespace TV.C10
 open TV.Fs
 
-/-- no oracle input: all fault probabilities are 0 -/
-def quiet (h : List Op) : List (Op × Ora) := h.map fun o => (o, {})
-
+-- `quiet h` pairs every op with the empty oracle: all fault probabilities are 0
 def CrashFree (h : List Op) : Prop := ∀ op ∈ h, op ≠ Op.crash
 
 instance (h : List Op) : Decidable (CrashFree h) := inferInstanceAs (Decidable (∀ op ∈ h, op ≠ Op.crash))
@@ -123,5 +123,66 @@ example : matchesFinding 6 hist6 = true := by decide
 example : matchesFinding 7 hist7 = true := by decide
 example : matchesFinding 8 hist8 = true := by decide
 example : matchesFinding 9 hist9 = true := by decide
+
+/-- F-C10-10: fsync through the new name of a renamed file flushes nothing and plants an empty
+    inode under the new name; the following sync_dir then loses the content -/
+def hist10 : List Op :=
+  [.writeFile a [65, 66], .rename a b, .open 0 b R, .syncAll 0, .syncDir [], .readFile b]
+
+theorem C10_witness_fsyncAcrossRename : ¬ C10_Statement := by
+  intro h
+  have := h hist10 (by decide)
+  revert this
+  decide
+
+example : matchesFinding 10 hist10 = true := by decide
+
+/-! ### what is proved: refinement on the fragment -/
+
+/-- `C10_partial`: on every history of the fragment (`fragRun`: all ops except rename / remove_file /
+    remove_dir / remove_dir_all / create_dir_all / read_dir, no shrinking set_len or truncating open of
+    a non-empty file, no file creation over a directory — conditions judged against the POSIX tree)
+    the implementation model returns exactly the observations of the POSIX tree.  Proof: simulation
+    relation `R` (`abs`: replay of the pending log = incremental content `inc`), `sim_step` (each op
+    commutes with the abstraction), `syncFile_views` / `syncDir_views` (each sync preserves it). -/
+theorem C10_partial (h : List Op) (hf : fragRun Live.init h = true) :
+    run {} St.init (quiet h) = sRun {} Spec.init (quiet h) := by
+  rw [run_eq_lRun h St.init Live.init R_init hf]
+  exact (sRun_eq_lRun h Spec.init (fragRun_crashFree h Live.init hf)).symm
+
+/-- the fragment is not trivial: create, write with a hole, overlapping write, extend, syncs in
+    between, reads -/
+def fragExample : List Op :=
+  [.mkdir d, .open 0 (d ++ a) { r := true, w := true, c := true }, .writeAt 0 2 [65, 66],
+   .syncAll 0, .writeAt 0 3 [67], .setLen 0 6, .syncDir d, .syncDir [], .readAt 0 0 8,
+   .writeFile b [1, 2, 3], .seek 0 2 (-1), .read 0 4, .stat (d ++ a), .readFile (d ++ a)]
+
+example : fragRun Live.init fragExample = true := by decide
+example : (run {} St.init (quiet fragExample)).getLast? = some (.data [0, 0, 65, 67, 0, 0]) := by decide
+
+/-- `C10_sync_invisible`: inserting a sync_all / sync_data / sync_dir anywhere in a fragment history
+    changes no later observation -/
+theorem C10_sync_invisible (h1 h2 : List Op) (s : Op) (hs : isSync s = true)
+    (hf : fragRun Live.init (h1 ++ h2) = true) :
+    (run {} St.init (quiet (h1 ++ s :: h2))).drop (h1.length + 1) =
+      (run {} St.init (quiet (h1 ++ h2))).drop h1.length := by
+  obtain ⟨l', _, e2, e3⟩ := lRun_append h1 h2 Live.init
+  have hf2 : fragRun Live.init (h1 ++ s :: h2) = true := by
+    rw [e3 (s :: h2)]
+    rw [e3 h2] at hf
+    simp only [Bool.and_eq_true] at hf ⊢
+    refine ⟨hf.1, ?_⟩
+    simp only [fragRun, Bool.and_eq_true]
+    exact ⟨fragOk_sync l' s hs, by rw [lStep_sync l' s hs]; exact hf.2⟩
+  rw [run_eq_lRun _ St.init Live.init R_init hf2, run_eq_lRun _ St.init Live.init R_init hf]
+  rw [e2 (s :: h2), e2 h2]
+  simp only [lRun, lStep_sync l' s hs]
+  have L : (lRun Live.init h1).length = h1.length := length_lRun _ _
+  rw [← L, List.drop_append, List.drop_left]
+  have e : (lRun Live.init h1).length + 1 - (lRun Live.init h1).length = 1 := by omega
+  rw [e, List.drop_eq_nil_of_le (by omega)]
+  rfl
+
+example : isSync (.syncDir []) = true := rfl
 
 end TV.C10
